@@ -830,10 +830,10 @@ Qed.
 Lemma rec_upd_W f x x' s :
   InvW s -> getF f s = Some x ->
   f_recv x' = f_recv x -> f_h x' = f_h x -> f_state x' = f_state x -> (f_live x' = true -> f_live x = true) ->
-  f_reg x = false -> f_reg x' = false ->
+  f_reg x = false -> f_reg x' = false -> (f_done x' = false -> f_done x = false) ->
   InvW (setF f x' s).
 Proof.
-  intros HW Hg Er Eh Es El Hr Hr'.
+  intros HW Hg Er Eh Es El Hr Hr' Hdn.
   assert (Heq : core_eq (with_arq (arq s) (with_asq (asq s) (setF f x' s))) (setF f x' s)) by core_eq_refl.
   apply (InvW_ext _ _ Heq). apply InvW_upd with x.
   - exact HW.
@@ -856,7 +856,9 @@ Proof.
   - intros T Hi. destruct (akeys_In _ _ Hi) as [w1 Hi1].
     destruct (w_arq_reg s HW T f w1 Hi1) as [z [Hz Hrz]]. congruence.
   - rewrite Hr'. discriminate.
-  - intros Hi. destruct (akeys_In _ _ Hi) as [w1 Hi1]. rewrite Es. apply (w_arq_st s HW f w1 x Hi1 Hg).
+  - intros Hi. destruct (akeys_In _ _ Hi) as [w1 Hi1]. rewrite Es.
+    destruct (w_arq_st s HW f w1 x Hi1 Hg) as [A B]. split; [exact A|].
+    intros E. specialize (B (Hdn E)). congruence.
 Qed.
 
 Lemma rec_upd_cnt (P : fut -> bool) f x x' s :
@@ -910,7 +912,7 @@ Proof.
   set (s2 := cancel_reg f x s1) in *. rewrite G2. cbn [ret fst].
   destruct H2 as [HD2 [HW2 HK2]].
   assert (HW3 : InvW (setF f (set_dead x2) s2)).
-  { apply rec_upd_W with x2; try assumption; try reflexivity. cbn. discriminate. }
+  { apply rec_upd_W with x2; try assumption; try reflexivity; cbn; auto; discriminate. }
   assert (HK3 : InvK (setF f (set_dead x2) s2)) by (apply rec_upd_K with x2; assumption).
   destruct (f_item x) as [v|] eqn:Ei.
   - apply InvH_destroy. split; [|split; assumption].
@@ -1091,7 +1093,7 @@ Proof.
       split; [|split].
       - apply InvD_setF with x0; [exact HD | apply (w_fnd s HW) | exact Hg |].
         intros u. unfold cellp. cbn. rewrite Ei. reflexivity.
-      - apply rec_upd_W with x0; try assumption; try reflexivity. cbn. auto.
+      - apply rec_upd_W with x0; try assumption; try reflexivity; cbn; auto; discriminate.
       - apply rec_upd_K with x0; try assumption. reflexivity. }
   set (x1 := set_item None x).
   set (s0 := setF f x1 s).
@@ -1123,7 +1125,7 @@ Proof.
     split; [|split].
     + apply InvD_setF with x1; [exact HD1 | apply (w_fnd s1 HW1) | exact G1 |].
       intros u. rewrite Ecell0. unfold cellp. cbn. apply andb_false_r.
-    + apply rec_upd_W with x1; try assumption; try reflexivity. cbn. auto.
+    + apply rec_upd_W with x1; try assumption; try reflexivity; cbn; auto; discriminate.
     + apply InvK_intro.
       * st_goal. rewrite Ftn, Fhs, Fsc, Frc. exact K1.
       * pose proof (rec_upd_cnt pw_r f x1 xd s1 HW1 G1 P1 D1) as U1.
@@ -1193,7 +1195,7 @@ Proof.
     set (xc := set_done (set_reg false x)).
     split; [|split].
     + apply InvD_cell_in with x1 v; try assumption; try reflexivity; try apply (w_fnd s0 HW0).
-    + apply rec_upd_W with x1; try assumption; try reflexivity. cbn. auto.
+    + apply rec_upd_W with x1; try assumption; try reflexivity; cbn; auto; discriminate.
     + assert (Pc : f_reg xc = false) by reflexivity.
       destruct (preds_unreg xc Pc) as (D1&D2&D3&D4).
       apply InvK_intro.
@@ -1432,7 +1434,7 @@ Proof.
     + intros _ Hi. destruct (akeys_In _ _ Hi) as [w1 Hi1]. exfalso. eapply not_in_asq_recv; eauto.
     + intros _ _. exact E6.
     + rewrite E1. discriminate.
-    + intros _. rewrite E7. reflexivity.
+    + intros _. rewrite E7. split; [reflexivity | intros _; exact E6].
 Qed.
 
 Lemma preds_recv_unq x0 :
@@ -1555,10 +1557,10 @@ Lemma q_done_stale f x0 xd s :
   InvD [] s -> InvW s -> getF f s = Some x0 -> f_recv x0 = true -> is_success (f_state x0) = false ->
   fx06 (fx s) = false ->
   f_recv xd = true -> f_h xd = f_h x0 -> f_live xd = f_live x0 -> f_item xd = f_item x0 -> f_reg xd = false ->
-  f_state xd = f_state x0 ->
+  f_state xd = f_state x0 -> f_done xd = true ->
   InvD [] (with_tn (set_t06 (tn s)) (setF f xd s)) /\ InvW (with_tn (set_t06 (tn s)) (setF f xd s)).
 Proof.
-  intros HD HW Hg Hrv Hns Hfx E1 E2 E3 E4 E5 E6.
+  intros HD HW Hg Hrv Hns Hfx E1 E2 E3 E4 E5 E6 E7.
   set (s' := with_tn (set_t06 (tn s)) s).
   assert (HD' : InvD [] s') by (apply InvD_with_tn; exact HD).
   assert (HW' : InvW s').
@@ -1586,7 +1588,7 @@ Proof.
     + intros _ Hi. destruct (akeys_In _ _ Hi) as [w1 Hi1]. exfalso. eapply (not_in_asq_recv s'); eauto.
     + cbn. discriminate.
     + rewrite E1. discriminate.
-    + intros _. rewrite E6. exact Hns.
+    + intros _. rewrite E6. split; [exact Hns | rewrite E7; discriminate].
 Qed.
 
 Lemma recv_try_q f w x0 s :
@@ -1629,7 +1631,7 @@ Proof.
     - destruct (queued f (arq s1)) eqn:Eq; unfold taint.
       + assert (Efx1 : fx06 (fx s1) = false) by (rewrite Efx; exact E6).
         change (tn (setF f xd s1)) with (tn s1).
-        destruct (q_done_stale f x0 xd s1 HD1 HW1 G1 Hrv Hns Efx1 Hrv eq_refl eq_refl eq_refl eq_refl eq_refl) as [HD2 HW2].
+        destruct (q_done_stale f x0 xd s1 HD1 HW1 G1 Hrv Hns Efx1 Hrv eq_refl eq_refl eq_refl eq_refl eq_refl eq_refl) as [HD2 HW2].
         split; [exact HD2|]. split; [exact HW2|].
         destruct (cnt4 f x0 xd s1 (with_tn (set_t06 (tn s1)) (setF f xd s1)) (w_fnd s1 HW1) G1 eq_refl) as (C1 & C2 & C3 & C4).
         rewrite D3, Q3 in C3. rewrite D4, Q4 in C4. cbn [b2n] in C3, C4.
@@ -1693,7 +1695,7 @@ Proof.
         -- intros _ Hi. destruct (akeys_In _ _ Hi) as [w1 Hi1]. exfalso. eapply not_in_asq_recv; eauto.
         -- intros _ _. reflexivity.
         -- cbn. rewrite Hrv. discriminate.
-        -- intros _. exact Hns.
+        -- intros _. split; [exact Hns | intros _; reflexivity].
       * destruct (cnt4 f x0 xw s (with_arq (set_waker f w (arq s)) (setF f xw s)) (w_fnd s HW) Hg eq_refl) as (C1 & C2 & C3 & C4).
         assert (W1 : pw_r xw = pw_r x0) by (unfold pw_r; cbn; rewrite Hreg; reflexivity).
         assert (W2 : pi_r xw = pi_r x0) by (unfold pi_r; cbn; rewrite Hreg; reflexivity).
@@ -1731,3 +1733,141 @@ Proof.
     + clear. lia.
     + intros T. destruct HK as [_ _ K3]. exact (K3 T).
 Qed.
+
+Lemma poll_recv_inv f w x s :
+  Inv s -> getF f s = Some x -> f_recv x = true -> f_live x = true -> f_done x = false ->
+  Inv (fst (poll_recv f w x s)).
+Proof.
+  intros H Hg Hrv Hl Hd. unfold poll_recv.
+  pose proof (proj1 (proj2 H)) as HW.
+  destruct (f_reg x) eqn:Hreg.
+  2:{ rewrite <- (set_reg_same x Hreg). apply recv_try_unq; try assumption.
+      - rewrite Hreg. discriminate.
+      - intros Hi. destruct (akeys_In _ _ Hi) as [w1 Hi1].
+        destruct (w_arq_st s HW f w1 x Hi1 Hg) as [_ B]. specialize (B Hd). congruence. }
+  destruct (f_state x) eqn:Est.
+  - apply recv_try_q; try assumption. rewrite Est. reflexivity.
+  - (* CLOSED-woken: unlink, then (repaired) re-drain or (as is) report Disconnected *)
+    assert (H1 : Inv (with_arq (unlink f (arq s)) s)).
+    { apply Inv_arq with f; try assumption.
+      - apply unlink_NoDup, (w_arq_nd s HW).
+      - intros f1 w1 Hi. apply unlink_In in Hi. exists w1. tauto.
+      - intros f1 Hne Hi. apply unlink_keys. auto.
+      - intros _. right. intros y Hy. rewrite Hg in Hy. inversion Hy; subst y. rewrite Est. reflexivity. }
+    set (s1 := with_arq (unlink f (arq s)) s) in *.
+    assert (G1 : getF f s1 = Some x) by exact Hg.
+    assert (Hnq1 : ~ In f (akeys (arq s1))).
+    { subst s1. st_goal. intros Hi. apply unlink_keys in Hi. destruct Hi as [_ Hi]. contradiction. }
+    destruct (fx08 (fx s1)) eqn:E8.
+    + apply recv_try_unq; try assumption. intros _. rewrite Est. reflexivity.
+    + cbn [fst].
+      set (b := negb (lenq s1 =? 0)).
+      assert (H2 : Inv (taint set_t08 b s1)).
+      { apply InvH_taint; [exact H1 | apply tle_set_t08 |].
+        intros _. apply ok_set_t08; [apply (w_taint s1 (proj1 (proj2 H1))) | exact E8]. }
+      set (s2 := taint set_t08 b s1) in *.
+      assert (E2 : fs s2 = fs s1 /\ arq s2 = arq s1) by (subst s2; unfold taint; destruct b; auto).
+      destruct E2 as [Ef Ea].
+      assert (G2 : getF f s2 = Some x) by (unfold getF; rewrite Ef; exact G1).
+      assert (Hnq2 : ~ In f (akeys (arq s2))) by (rewrite Ea; exact Hnq1).
+      destruct H2 as [HD2 [HW2 HK2]].
+      set (xd := set_done (set_reg false x)).
+      destruct (unq_done f x xd s2 HD2 HW2 G2 Hrv Hnq2 Hrv eq_refl eq_refl eq_refl eq_refl) as [HD3 HW3].
+      split; [exact HD3|]. split; [exact HW3|].
+      destruct (cnt4 f x xd s2 (setF f xd s2) (w_fnd s2 HW2) G2 eq_refl) as (C1 & C2 & C3 & C4).
+      destruct (preds_unreg xd eq_refl) as (D1&D2&D3&D4).
+      assert (Q1 : pw_r x = false) by (unfold pw_r; rewrite Est; cbn; apply andb_false_r).
+      assert (Q2 : pi_r x = false) by (unfold pi_r; rewrite Est; cbn; apply andb_false_r).
+      assert (Q3 : pw_s x = false) by (unfold pw_s; rewrite Hrv; reflexivity).
+      assert (Q4 : pi_s x = false) by (unfold pi_s; rewrite Hrv; reflexivity).
+      rewrite D1, Q1 in C1. rewrite D2, Q2 in C2. rewrite D3, Q3 in C3. rewrite D4, Q4 in C4. cbn [b2n] in C1, C2, C3, C4.
+      apply (K_after s2 _ 0 0 0 0 HK2); try reflexivity.
+      * clear - C1. lia.
+      * clear - C2. lia.
+      * intros T. destruct HK2 as [_ _ K3]. fold (nq s2) in K3. fold (ncap s2) in K3. specialize (K3 T).
+        change (nq (setF f xd s2)) with (nq s2). clear - K3 C3 C4. lia.
+      * intros _ _ K. change (nq (setF f xd s2)) with (nq s2). clear - K. lia.
+  - (* woken: the waiter entry was removed by the waker *)
+    apply recv_try_unq; try assumption.
+    + intros _. rewrite Est. reflexivity.
+    + intros Hi. destruct (akeys_In _ _ Hi) as [w1 Hi1].
+      destruct (w_arq_st s HW f w1 x Hi1 Hg) as [A _]. rewrite Est in A. discriminate.
+  - apply recv_try_q; try assumption. rewrite Est. reflexivity.
+Qed.
+
+Lemma step_poll s f w : Inv s -> Inv (fst (step s (Poll f w))).
+Proof.
+  intros H0. apply Inv_reset in H0. unfold step. fold (reset s). set (s1 := reset s) in *. clearbody s1.
+  destruct (getF f s1) as [x|] eqn:Hg; [|exact H0].
+  destruct (f_live x) eqn:Hl; cbn [negb]; [|exact H0].
+  destruct (f_done x) eqn:Hd; [exact H0|].
+  destruct (handle_closed (f_h x) s1 && fx03f (fx s1)) eqn:Ec.
+  - (* repaired: a poll on a closed handle fails, cancelling the registration as Drop does *)
+    destruct (cancel_reg_inv f x s1 H0 Hg) as [H2 [[x2 (G2 & R2 & L2 & I2 & Rv2 & Hh2 & D2)] _]].
+    set (s2 := cancel_reg f x s1) in *. rewrite G2. cbn [ret fst].
+    destruct H2 as [HD2 [HW2 HK2]].
+    split; [|split].
+    + apply InvD_setF with x2; [exact HD2 | apply (w_fnd s2 HW2) | exact G2 | reflexivity].
+    + apply rec_upd_W with x2; try assumption; try reflexivity; cbn; auto; discriminate.
+    + apply rec_upd_K with x2; try assumption; reflexivity.
+  - assert (Ht : Inv (taint set_t03f (handle_closed (f_h x) s1) s1)).
+    { apply InvH_taint; [exact H0 | apply tle_set_t03f |].
+      intros E. apply ok_set_t03f; [apply (w_taint s1 (proj1 (proj2 H0)))|]. rewrite E in Ec. exact Ec. }
+    set (s2 := taint set_t03f (handle_closed (f_h x) s1) s1) in *.
+    assert (G2 : getF f s2 = Some x) by (subst s2; unfold taint; destruct (handle_closed (f_h x) s1); exact Hg).
+    destruct (f_recv x) eqn:Hrv.
+    + pose proof (poll_recv_inv f w x s2 Ht G2 Hrv Hl Hd) as A.
+      destruct (poll_recv f w x s2) as [s3 r]. exact A.
+    + pose proof (poll_send_inv f w x s2 Ht G2 Hrv Hl Hd) as A.
+      destruct (poll_send f w x s2) as [s3 r]. exact A.
+Qed.
+
+(** * every step preserves the invariant; the initial state satisfies it *)
+Theorem Inv_step s o : Inv s -> Inv (fst (step s o)).
+Proof.
+  destruct o.
+  - apply step_try_send.
+  - apply step_try_recv.
+  - apply step_send.
+  - apply step_recv.
+  - apply step_recv_timeout.
+  - apply step_clone.
+  - apply step_close.
+  - apply step_drop.
+  - apply step_convert.
+  - apply step_observe.
+  - apply step_mksend.
+  - apply step_mkrecv.
+  - apply step_poll.
+  - apply step_dropf.
+Qed.
+
+Lemma Inv_init c a f : Inv (init c a f).
+Proof.
+  unfold init. split; [|split].
+  - constructor; unfold nq, ncap, tot, cells; st_simpl.
+    + cbn. lia.
+    + reflexivity.
+    + intros v. cbn. destruct (v <? 0) eqn:E; [apply N.ltb_lt in E; lia | reflexivity].
+  - constructor; unfold getF, getH, any_live; st_simpl; cbn; try (intros; contradiction); try discriminate.
+    + repeat constructor; cbn; intuition discriminate.
+    + constructor.
+    + constructor.
+    + constructor.
+    + reflexivity.
+    + unfold taint_ok. cbn. repeat split; reflexivity.
+  - constructor; unfold nq, ncap; st_simpl; cbn.
+    + intros _. split; reflexivity.
+    + intros _ _. left. reflexivity.
+    + intros _. left. reflexivity.
+Qed.
+
+Theorem Inv_run os : forall s, Inv s -> Inv (fst (run s os)).
+Proof.
+  induction os as [|o r IH]; intros s H; cbn [run]; [exact H|].
+  pose proof (Inv_step s o H) as H1. destruct (step s o) as [s1 x]. cbn [fst] in H1.
+  specialize (IH s1 H1). destruct (run s1 r) as [s2 xs]. exact IH.
+Qed.
+
+Theorem Inv_reachable c a f os : Inv (state_after c a f os).
+Proof. unfold state_after. apply Inv_run. apply Inv_init. Qed.
